@@ -3,6 +3,7 @@ import Driver.State
 import Driver.Typed
 import Driver.Upd
 import Driver.Ser
+import Driver.Rfl
 open SMD SMD.Wire
 namespace Driver
 
@@ -20,7 +21,7 @@ def step (st : State) (line : String) : State × String :=
       match stepUpd st name rest with
       | some r => r
       | none => (st, "bad-args " ++ name)
-    else (st, runOpWith (allOps ++ opsSer ++ opsTyped st ++ opsFlt st) line)
+    else (st, runOpWith (allOps ++ opsSer ++ opsRfl ++ opsTyped st ++ opsFlt st) line)
   | none => (st, "bad-op")
 
 end Driver
